@@ -67,6 +67,15 @@ def check(prog, ctx):
         compare(env2, r2, exp2, viol, tag="")
         if viol:
             break
+    if not viol:
+        from ..e1 import oracles
+        env_b = oracles.again(prog, env)
+        if env_b is not None:
+            v2 = []
+            r_b, exp_b = expected(prog, env_b)
+            compare(env_b, r_b, exp_b, v2)
+            viol += oracles.second(v2)
+            ctx.label("run-twice-on-one-scheduler")
     st = gen.stats(prog)
     nflush = len(env.flushes)
     ctx.label("flushes>=2", nflush >= 2)
